@@ -8,6 +8,7 @@ from ..impl import Quiet
 from ..comp import split as SP
 from ..comp import splitrep as SR
 from ..comp import splitbuild as SB
+from ..comp import splitstorage as SS
 
 ID = 'C14'
 THEOREMS = [
@@ -18,8 +19,8 @@ THEOREMS = [
     ('EAO.Properties.C01', 'EAO.C01.nodal_balance_split', 'the concatenated solution satisfies nodal balance at the original steps'),
     ('EAO.Properties.C04', 'EAO.C04.value_accounting_split', 'value accounting interval by interval'),
 ] + SP.THEOREMS_C14_SPLIT + SP.THEOREMS_C14_LE
-THEOREMS = THEOREMS + SB.THEOREMS_C14_BUILDERS
-PARTIAL = ['for portfolios of the five contract / transport builder classes (SimpleContract, Contract, MultiCommodity, Transport, ExtendedTransport, freq = None) the relation to the unsplit problem IS a theorem about the builders (EAO.C14B.split_equals_unsplit_builders under the decidable hypotheses splitHyps: same one-/two-variable form in every interval, no array parameter of the grid\'s length, every take period inside one interval, positive step lengths; each hypothesis has a machine-checked example showing it is needed); for all other assets (storages, plants, order books, wrappers) the relation to the UNSPLIT problem is decided by per-instance certificates, not by a theorem about the builders: split = unsplit (value and dispatch) by theorem split_equals_unsplit(_bool) under the decidable witness splitWitness, split <= unsplit (and: the concatenated split solution satisfies every row and bound of the unsplit problem) by split_solution_le_unsplit(C)(_bool) under splitLeWitness(C) with exact row-implication multipliers; the driver evaluates the witnesses EXACTLY on the real unsplit problem and the real interval problems of every case of the uncoupled resp. storage streams (a false witness there is reported as a broken tie). Outside the certificates, on the numerical oracle only: cases in which the unsplit problem needs the two-variable form of a contract and an interval gets by with one variable (different variable sets, no matching), and storages with holding costs whose float cost vectors differ from an exact multiple of the end-level rows by rounding noise. The shortcut io.optimize and the DataFrame form of the price data are covered by the numerical / exact-comparison oracles on the real code only (no model of io.optimize or of Timegrid.prices_to_grid is involved in C14); of the shortcut result the value, the steps and the columns of the dispatch table are compared with the direct split path, not the dispatch numbers (degenerate optima)']
+THEOREMS = THEOREMS + SB.THEOREMS_C14_BUILDERS + SS.THEOREMS_C14_STORAGE
+PARTIAL = ['for portfolios of the five contract / transport builder classes (SimpleContract, Contract, MultiCommodity, Transport, ExtendedTransport, freq = None) the relation to the unsplit problem IS a theorem about the builders (EAO.C14B.split_equals_unsplit_builders under the decidable hypotheses splitHyps: same one-/two-variable form in every interval, no array parameter of the grid\'s length, every take period inside one interval, positive step lengths; each hypothesis has a machine-checked example showing it is needed); for LP storages next to them it is a theorem as well (EAO.C14S.split_le_unsplit_builders: the split set-up is the unsplit portfolio with every storage in restart form; with start level = end level in [0, size], cost_store = 0 and intervals that tile the storage\'s steps the concatenated interval solutions are feasible for the unsplit problem with the same value, hence split <= unsplit; the exact cost relation with holding costs is storage_split_value(_const); machine-checked counterexamples for start != end, start < 0, cost_store != 0); for all other assets (storages with blocks or MIP options, plants, order books, wrappers) the relation to the UNSPLIT problem is decided by per-instance certificates, not by a theorem about the builders: split = unsplit (value and dispatch) by theorem split_equals_unsplit(_bool) under the decidable witness splitWitness, split <= unsplit (and: the concatenated split solution satisfies every row and bound of the unsplit problem) by split_solution_le_unsplit(C)(_bool) under splitLeWitness(C) with exact row-implication multipliers; the driver evaluates the witnesses EXACTLY on the real unsplit problem and the real interval problems of every case of the uncoupled resp. storage streams (a false witness there is reported as a broken tie). Outside the certificates, on the numerical oracle only: cases in which the unsplit problem needs the two-variable form of a contract and an interval gets by with one variable (different variable sets, no matching), and storages with holding costs whose float cost vectors differ from an exact multiple of the end-level rows by rounding noise. The shortcut io.optimize and the DataFrame form of the price data are covered by the numerical / exact-comparison oracles on the real code only (no model of io.optimize or of Timegrid.prices_to_grid is involved in C14); of the shortcut result the value, the steps and the columns of the dispatch table are compared with the direct split path, not the dispatch numbers (degenerate optima)']
 COMPONENTS = ['per-interval assemble on captured asset problems vs the interval problems of setup_split_optim_problem', 'index shift / original step numbers of the joint mapping', 'split-witness: exact evaluation of splitWitness (unsplit real problem renamed along the matching of the variables = block sum of the real interval problems)', 'split-le-witness: exact evaluation of splitLeWitness(C) (every unsplit row implied by interval rows with explicit multipliers found numerically)']
 RULE = ('random portfolios x interval sizes (aligned and not aligned with the horizon, incl. partial last interval); three streams: uncoupled assets only (value and dispatch equal to unsplit), storages with start=end level as only coupling (split <= unsplit, concatenated solution feasible for unsplit), anything (sum of interval optima, balance, limits, original steps); '
         'in 6 of 10 cases of the uncoupled (outside its fixed-scale variant) and of the anything stream plants / CHPs WITH a fuel node are added whose fuel efficiency, fuel consumption when on / per start, conversion factor, heat share, start and running costs '
@@ -103,6 +104,19 @@ def scenarios(seed, tier):
             s['fuel_plants'] = True
         if r2.random() < 0.25:
             gen.make_late_start(s, r2)
+        if stream == 'storage' and i % 8 in (3, 5):
+            # probes at the points outside the hypotheses of the storage theorems (EAO.C14S.storage_split_value_const, splitHypsS):
+            # holding costs with a negative inflow (losses), time blocks of a size that is not the interval size
+            for a in s['assets']:
+                if a['type'] == 'Storage':
+                    if i % 8 == 3:
+                        a['args']['cost_store'] = gen.q8(r3, 0.25, 2)
+                        a['args']['inflow'] = -gen.q8(r3, 0.125, 0.5)
+                    else:
+                        a['args']['block_size'] = '%dmin' % (s['grid']['step_s'] // 60 * r3.choice([2, 3, 5]))
+                        a['args'].pop('start', None)
+                        a['args'].pop('end', None)
+            s['probe'] = 'hc_neg_inflow' if i % 8 == 3 else 'blocks_off_cuts'
         if stream == 'uncoupled' and i % 8 == 4:
             # a scaled asset held at a FIXED scale (so the scale couples nothing) with fixed costs, over a base that is active in
             # part of the horizon only
@@ -148,6 +162,10 @@ def scenarios(seed, tier):
     rnd_sb = random.Random(seed * 104729 + 1414)
     for i in range(100 if tier == 'quick' else 700):
         yield 'sbd%d' % i, {'_stream': 'splitbuild', 'case': SB.gen_case(random.Random(rnd_sb.getrandbits(48)))}
+    # the same with storages (restart form of the unsplit problem; split <= unsplit for start level = end level): comp/splitstorage.py
+    rnd_ss = random.Random(seed * 104729 + 1415)
+    for i in range(80 if tier == 'quick' else 500):
+        yield 'sst%d' % i, {'_stream': 'splitstorage', 'case': SS.gen_case(random.Random(rnd_ss.getrandbits(48)))}
 
 
 def interval_of(scn, tg):
@@ -171,6 +189,17 @@ def key_rows(m):
 
 
 def run_case(scn, drv):
+    if scn.get('_stream') == 'splitstorage':
+        case = scn['case']
+        r = SS.run_impl(case)
+        req = SS.request(case, r)
+        mres = drv.ask(req)
+        dis = SS.compare(case, r, mres, req)
+        vio = SS.oracle(case, r, mres, drv)
+        m = mres.get('ok', {})
+        return {'evaluated': 1, 'nontrivial': bool(m.get('hyps')) and 'intervals' in r['split'],
+                'features': ['stream:splitstorage', 'ss:' + str(case.get('stream')), 'hyps:%s' % m.get('hyps'), 'level:%s' % m.get('level'), 'witness_restart:%s' % m.get('witness_restart')],
+                'disagreements': [{'component': 'split storages', 'detail': d} for d in dis], 'violations': vio}
     if scn.get('_stream') == 'splitbuild':
         case = scn['case']
         r = SB.run_impl(case)
@@ -200,8 +229,15 @@ def run_case(scn, drv):
     for a in scn['assets']:
         feats.append('asset:' + a['type'])
 
+    # facts of the scenario that name regions outside the hypotheses of the storage theorems (EAO.C14S): holding costs together
+    # with a NEGATIVE inflow (finding F-14j), time blocks that are not the intervals (finding F-14k)
+    _st = [a.get('base', a) for a in scen.all_asset_specs(scn) if a.get('base', a).get('type') == 'Storage']
+    _hc = any(float(a['args'].get('cost_store', 0) or 0) * float(a['args'].get('inflow', 0) or 0) < 0 for a in _st
+              if not isinstance(a['args'].get('cost_store', 0), (dict, str)) and not isinstance(a['args'].get('inflow', 0), (dict, str)))
+    _bl = any(a['args'].get('block_size') is not None for a in _st) and scn['stream'] != 'blocks'
+
     def viol(msg, **facts):
-        r['violations'].append({'oracle': 'split', 'detail': msg, 'facts': dict(facts, stream=scn['stream'])})
+        r['violations'].append({'oracle': 'split', 'detail': msg, 'facts': dict(facts, stream=scn['stream'], hc_neg_inflow=_hc, blocks_off_cuts=_bl)})
     try:
         rec = pf.setup_mono(scn)
         pf.solve_rec(rec)
